@@ -204,6 +204,12 @@ BRANCHES = [
     'development/4.3 ', 'development/4.3\n', ' development/4.3',
     'development/4.3\t', 'development/4.3\r\n', 'development/4.3\x00',
     'stabilization/4.3.1\n', 'development/4.3;id', '--upload-pack=x',
+    # a well-formed name followed by slashes (the <path:> converter keeps
+    # them: what is validated must be what the job carries)
+    'development/4.3/', 'stabilization/4.3.1/', 'hotfix/4.3.1//',
+    'development/4/',
+    # (a leading or doubled slash never reaches the application: the router
+    # answers 308 to the merged path; not an input of the endpoints)
 ]
 
 
